@@ -303,6 +303,81 @@ theorem transpose_shape (rows : List (List ℤ)) (r : List ℤ) (h : rows = r ::
   subst h; simp [transposeL]
 
 /-! non-vacuity: all elements at the most negative code -/
+/-! ### cumprod: every partial product, rescaled to the common fraction length, fits the result format -/
+
+/-- an in-range code shifted left by `e` bits fits every word of at least `n_word + e` bits (same signedness). -/
+theorem shifted_fits (sg : Bool) (w W e : ℕ) (fr fr' : ℤ) (hw : 0 < w) (hW : w + e ≤ W) (c : ℤ)
+    (h : (⟨sg, w, fr⟩ : Fmt).InRange c) : (⟨sg, W, fr'⟩ : Fmt).InRange (c * 2 ^ e) := by
+  unfold InRange lo hi at *
+  simp only at *
+  have hE : (0:ℤ) < 2 ^ e := by positivity
+  have hE1 : (1:ℤ) ≤ 2 ^ e := one_le_two_pow e
+  cases sg
+  · simp only [Bool.false_eq_true, if_false] at *
+    have hp : (2:ℤ) ^ (w + e) ≤ 2 ^ W := pow_mono2 hW
+    rw [pow_add] at hp
+    constructor
+    · exact mul_nonneg h.1 hE.le
+    · nlinarith [h.2]
+  · simp only [if_true] at *
+    have hp : (2:ℤ) ^ (w - 1 + e) ≤ 2 ^ (W - 1) := pow_mono2 (by omega)
+    rw [pow_add] at hp
+    have hP : (0:ℤ) < 2 ^ (w - 1) := by positivity
+    constructor <;> nlinarith [h.1, h.2]
+
+/-- the exponent by which the `k`-th partial product is rescaled is non-negative. -/
+theorem cumprod_shift_nonneg (f : Fmt) (size k : ℕ) (hk1 : 1 ≤ k) (hk : k ≤ size) :
+    0 ≤ cumprodFrac f size - (k : ℤ) * f.nfrac := by
+  unfold cumprodFrac
+  have a1 : (1 : ℤ) ≤ k := by exact_mod_cast hk1
+  have a2 : (k : ℤ) ≤ size := by exact_mod_cast hk
+  split
+  · rename_i h
+    have : 0 ≤ ((size : ℤ) - k) * f.nfrac := mul_nonneg (by omega) h
+    linarith
+  · rename_i h
+    have : 0 ≤ ((k : ℤ) - 1) * (-f.nfrac) := mul_nonneg (by omega) (by omega)
+    linarith
+
+/-- the word of `cumprodFmt` is large enough for the `k`-th partial product (`k·n_word` bits) plus its rescaling. -/
+theorem cumprod_word_ge (f : Fmt) (size k : ℕ) (hk1 : 1 ≤ k) (hk : k ≤ size) :
+    (k : ℤ) * f.nword + (cumprodFrac f size - (k : ℤ) * f.nfrac) ≤
+      max ((f.nword : ℤ) + cumprodFrac f size - f.nfrac) ((size : ℤ) * f.nword + cumprodFrac f size - size * f.nfrac) := by
+  have a1 : (1 : ℤ) ≤ k := by exact_mod_cast hk1
+  have a2 : (k : ℤ) ≤ size := by exact_mod_cast hk
+  -- k·(n − f) is linear in k: its maximum over 1 ≤ k ≤ size is at one of the ends
+  by_cases hd : 0 ≤ (f.nword : ℤ) - f.nfrac
+  · have : (k : ℤ) * ((f.nword : ℤ) - f.nfrac) ≤ (size : ℤ) * ((f.nword : ℤ) - f.nfrac) := mul_le_mul_of_nonneg_right a2 hd
+    exact le_trans (by nlinarith) (le_max_right _ _)
+  · have : (k : ℤ) * ((f.nword : ℤ) - f.nfrac) ≤ 1 * ((f.nword : ℤ) - f.nfrac) := by nlinarith
+    exact le_trans (by nlinarith) (le_max_left _ _)
+
+/-- **cumprod never overflows**: every non-empty prefix product, rescaled to the common fraction length, fits the format
+`cumprodFmt` — for every fraction length (negative, or longer than the word), all codes at their extremes included. -/
+theorem cumprod_fits (f : Fmt) (hf : f.WF) (hw : 0 < f.nword) (cs pre : List ℤ) (hpre : pre <+: cs) (hne : pre ≠ [])
+    (h : ∀ c ∈ cs, f.InRange c) :
+    (cumprodFmt f cs.length).InRange
+      (prodL pre * 2 ^ (cumprodFrac f cs.length - (pre.length : ℤ) * f.nfrac).toNat) := by
+  have hk1 : 1 ≤ pre.length := List.length_pos_iff.mpr hne
+  have hk : pre.length ≤ cs.length := hpre.length_le
+  have hmem : ∀ c ∈ pre, f.InRange c := fun c hc => h c (hpre.subset hc)
+  have hp := prod_fits f hf hw pre hne hmem
+  have he := cumprod_shift_nonneg f cs.length pre.length hk1 hk
+  have hwd := cumprod_word_ge f cs.length pre.length hk1 hk
+  unfold prodFmt at hp
+  unfold cumprodFmt
+  refine shifted_fits f.signed (pre.length * f.nword) _ _ _ _ (Nat.mul_pos hk1 hw) ?_ _ hp
+  -- the word: toNat of the maximum
+  have : ((pre.length * f.nword + (cumprodFrac f cs.length - (pre.length : ℤ) * f.nfrac).toNat : ℕ) : ℤ) ≤
+      max ((f.nword : ℤ) + cumprodFrac f cs.length - f.nfrac) ((cs.length : ℤ) * f.nword + cumprodFrac f cs.length - cs.length * f.nfrac) := by
+    push_cast
+    rw [Int.toNat_of_nonneg he]
+    exact hwd
+  omega
+
+example : cumprodFmt ⟨true, 1, 3⟩ 2 = ⟨true, 4, 6⟩ ∧ cumprodFmt ⟨true, 3, -2⟩ 3 = ⟨true, 13, -2⟩ ∧ cumprodFmt ⟨true, 4, 2⟩ 3 = ⟨true, 12, 6⟩ := by
+  decide +kernel
+
 example : sumL [-8, -8, -8, -8] = -32 ∧ (sumFmt ⟨true, 4, 0⟩ 4) = ⟨true, 6, 0⟩ := by decide +kernel
 example : (sumFmt ⟨true, 4, 0⟩ 4).InRange (-32) := by unfold Fmt.InRange Fmt.lo Fmt.hi; decide +kernel
 example : prodL [-8, -8] = 64 ∧ (prodFmt ⟨true, 4, 0⟩ 2).InRange 64 := by
